@@ -33,6 +33,7 @@ def run(F, R, ctx):
     escape_agreement_rule(F, R)
     complex_sign_rule(F, R)
     delimiter_agreement_rule(F, R)
+    interner_id_rule(F, R)
 
 
 def _run(F, R, ctx):
@@ -419,3 +420,43 @@ def delimiter_agreement_rule(F, R):
                "Lexer::read_word treats %r as a delimiter, but Lexer::read_number %s: a number written directly before it "
                "is lexed as an identifier (`2%sx` gives the symbol 2), so valid input is read as the wrong datum"
                % (ch, "has no case for it" if arm is None else "does not finish the number there", ch), rn.loc(), sample=(ch in "{;"))
+
+
+def interner_id_rule(F, R):
+    from .c07 import _backward, _origins
+    R.rule("C12.i", "an interned token's id and its table entry are tied by the id itself, not by arrival order: in every "
+                    "function of the parser / core that draws an id from an atomic counter (fetch_add) and records a value in "
+                    "a shared table of the same object, each recording call (insert / push / set / extend on a field of "
+                    "self) that follows takes an argument derived from the id drawn. nc: a table filled by position (`push`) "
+                    "is ordered by who takes the lock first, the ids by who incremented first; two threads lexing different "
+                    "new number literals at once exchange their numbers for good — the syntax tree holds a different number "
+                    "than the text (reading is not deterministic under concurrency)")
+    n = 0
+    for name, fn in sorted(F.fns.items()):
+        if not name.startswith(("steel::", "steel_parser::")):
+            continue
+        fa = [(i, b) for i, b in fn.calls() if re.search(r"\{impl Atomic<\w+>\}::fetch_add$|Atomic\w+\}::fetch_add$", b["callee"]) and b.get("dest")]
+        if not fa:
+            continue
+        maps0 = _backward(fn)
+        muts = [(i, b) for i, b in fn.calls()
+                if re.search(r"::(insert|push|push_back|extend|set|insert_full)$", b["callee"]) and b["args"]
+                and "_1" in {o.split(".")[0] for o in _origins(fn, re.match(r"_\d+", b["args"][0]).group(0), maps0, depth=14)}]
+        if not muts:
+            continue
+        maps = maps0
+        ids = {b["dest"].split(".")[0] for _, b in fa}
+        for i, b in muts:
+            if not any(i in fn.reachable_from(fn.succ(f_)) for f_, _ in fa):
+                continue
+            n += 1
+            ok = False
+            for a in b["args"][1:]:
+                for t in lib.TOK.findall(a):
+                    if ({o.split(".")[0] for o in _origins(fn, t, maps, depth=14)} | {t.split(".")[0]}) & ids:
+                        ok = True
+            R.inst("C12.i", "%s / %s records under the id drawn" % (fn.short(), lib.split_path(b["callee"])[-1]), ok,
+                   "%s draws an id with fetch_add and then records a value with %s (line %s) without passing the id: the entry's "
+                   "position depends on which thread gets to the table first, not on the id handed out" % (
+                       fn.short(), lib.split_path(b["callee"])[-1], b["line"]), fn.loc(b["line"]), sample=True)
+    R.floor("C12.i", "table insertions after drawing an id", n, 2)
